@@ -456,6 +456,17 @@ parse_next_record_header:
     }
     else if (innerType == SSL_RECORD_TYPE_APPLICATION_DATA)
     {
+        /* Application data is only acceptable under record protection,
+           and only after the handshake has completed or as early data
+           the server is prepared to accept. */
+        if (!DECRYPTING_RECORDS(ssl) ||
+                (ssl->hsState != SSL_HS_DONE &&
+                 ssl->hsState != SSL_HS_TLS_1_3_WAIT_EOED))
+        {
+            ssl->err = SSL_ALERT_UNEXPECTED_MESSAGE;
+            psTraceErrr("Unexpected application data record\n");
+            goto encodeResponse;
+        }
         if (ssl->hsState == SSL_HS_TLS_1_3_WAIT_EOED)
         {
             if (ssl->sec.tls13ChosenPsk != NULL &&
